@@ -3,6 +3,8 @@
 -/
 import MicroHttp.Response
 import MicroHttp.Spec.RespReader
+import MicroHttp.Proofs.ResponseLemmas
+import MicroHttp.Proofs.ReaderLemmas
 namespace MicroHttp.C05
 open MicroHttp
 
@@ -41,7 +43,7 @@ theorem layout (r : Response) :
     r.serialize =
       r.version.raw ++ [SP] ++ r.status.raw ++ [SP, CR, LF] ++
       ((headerLines r).map (· ++ CRLF)).flatten ++ CRLF ++ (r.body.getD []) := by
-  sorry
+  exact ResponseLemmas.layout r
 
 /-- Content-Length is present for every status other than 100/204 even when no body was set,
     absent for 100/204 unless a body was set, and after a body is set equals the body's length
@@ -52,7 +54,7 @@ theorem length_rule (v : Version) (s : StatusCode) (ops : List BuildOp) (hops : 
     (∀ b, r.body = some b → r.contentLength = some (asI32 b.length)) ∧
     (r.body = none → (r.contentLength = some 0 ∧ s ≠ .continue_ ∧ s ≠ .noContent) ∨
                       (r.contentLength = none ∧ (s = .continue_ ∨ s = .noContent))) := by
-  sorry
+  exact ResponseLemmas.length_rule v s ops hops
 
 /-- A response is self-delimiting when its server identity contains no CR LF and its length header
     (if any) equals the byte length of its body. -/
@@ -69,7 +71,7 @@ theorem built_selfDelimiting (v : Version) (s : StatusCode) (ops : List BuildOp)
     (hsrv : ∀ sv, BuildOp.setServer sv ∈ ops → noCRLF sv = true)
     (hbody : ∀ b, BuildOp.setBody b ∈ ops → b.length < 2147483648) :
     SelfDelimiting (Response.build v s ops) := by
-  sorry
+  exact ResponseLemmas.built_selfDelimiting v s ops hops hsrv hbody
 
 def view (r : Response) : RespView := ⟨r.version.raw, r.status.raw, headerLines r, r.body.getD []⟩
 
@@ -77,12 +79,12 @@ def view (r : Response) : RespView := ⟨r.version.raw, r.status.raw, headerLine
     exactly, from any concatenation of self-delimiting responses. -/
 theorem roundtrip (rs : List Response) (h : ∀ r ∈ rs, SelfDelimiting r) (fuel : Nat) (hfuel : rs.length < fuel) :
     readAll fuel (rs.flatMap Response.serialize) = (rs.map view, []) := by
-  sorry
+  exact ReaderLemmas.roundtrip rs h fuel hfuel
 
 /-- status and version are recovered unambiguously from the view -/
 theorem view_status_version (r r' : Response) (h : view r = view r') :
     r.status = r'.status ∧ r.version = r'.version ∧ r.body.getD [] = r'.body.getD [] := by
-  sorry
+  exact ResponseLemmas.view_status_version r r' h
 
 /-- However the sink splits the writes (short writes, interrupts, failures), what it accepted is a
     prefix of the one-piece serialization, and all of it exactly when `write_all` reports success. -/
@@ -90,7 +92,7 @@ theorem sink_independent (r : Response) (sched : List SinkStep) :
     (r.writeAll sched).1 <+: r.serialize ∧
     ((r.writeAll sched).2 = true → (r.writeAll sched).1 = r.serialize) ∧
     ((r.writeAll sched).2 = false → (r.writeAll sched).1.length < r.serialize.length) := by
-  sorry
+  exact ResponseLemmas.sink_independent r sched
 
 example : SelfDelimiting ((Response.new .http11 .ok).apply (.setBody [0x0D, 0x0A, 0x0D, 0x0A, 0x48])) := by
   simp [SelfDelimiting, Response.new, Response.apply, noCRLF, asI32, DEFAULT_SERVER]; decide
